@@ -6,8 +6,15 @@ from concurrent.futures import ThreadPoolExecutor
 V = os.path.dirname(os.path.dirname(os.path.abspath(__file__)))
 PIDS = ["C%02d" % i for i in range(1, 21)]
 rows = []
+import fcntl
+os.makedirs(V + "/work", exist_ok=True)
+_lk = open(V + "/work/repo.lock", "w")
+fcntl.flock(_lk, fcntl.LOCK_EX)  # one user of /repo's working tree at a time
+only = sys.argv[1:]
 for d in sorted(glob.glob(V + "/seeded/harmless/h*.diff")):
     name = os.path.basename(d)
+    if only and name.split(".")[0] not in only:
+        continue
     if subprocess.run(["git", "-C", "/repo", "status", "--porcelain"], capture_output=True, text=True).stdout.strip():
         sys.exit("/repo is not clean")
     if subprocess.run(["git", "-C", "/repo", "apply", d]).returncode != 0:
